@@ -83,6 +83,76 @@ def make_bases(rng, impl):
     return bases
 
 
+def continued_iteration(rep, tier, rng, impl, replay=None):
+    """(iv) ONE iterator that goes on after an error (harness kind CONT): every point it yields after a failure must
+    still be the point of the unaltered file at that position.  The file puts the end of a non-final data packet
+    exactly on the end of a page (blob of 408 bytes, then XYZ doubles: 504 + 2 * 65028 = 128 * 1020), the layout in
+    which a reader that has moved on past a failed page finds a well-formed packet header next."""
+    proto = [("x", "D"), ("y", "D"), ("z", "D")]
+    n = 9000
+    sd = replay["seed"] if replay else rng.next()
+    r2 = core.Rng(sd)
+    items = [("B", r2.bytes(408)), ("P", proto, gen.rand_points(r2, proto, n))]
+    o = core.run_one(impl, "FW - " + " ".join(c01.item_tok(i) for i in items) + " DUMP")
+    outs = o.split(" | ")[0].split()
+    dev = bytes.fromhex(o.split(" dev=")[1].strip())
+    pdesc = [x for x in outs if x.startswith("p")][0]
+    off, cnt = pdesc[1:].split(":")
+    # where do the data packets end in the logical stream?
+    log = crc.strip(dev)
+    lo = int(off) - 4 * (int(off) // 1024)
+    pos = lo + 32
+    ends = []
+    while pos + 4 <= len(log) and log[pos] == 1 and len(ends) < 8:
+        ln = int.from_bytes(log[pos + 2:pos + 4], "little") + 1
+        pos += ln
+        ends.append(pos)
+    at_page_end = [e for e in ends[:-1] if e % 1020 == 0]
+    rep.cov["continued_iteration_layout"] = dict(packets=len(ends), packet_ends=ends[:5], non_final_packet_ends_on_a_page_end=bool(at_page_end))
+    pages = set()
+    for e in ends[:-1]:
+        pg = e // 1020
+        pages.update([pg - 2, pg - 1, pg, pg + 1])
+    for _ in range(6 if tier == "quick" else 60):
+        pages.add(r2.range(2, len(dev) // 1024 - 2))
+    patches = []
+    if replay:
+        patches = [{int(k): v for k, v in replay["patch"].items()}]
+    else:
+        for pg in sorted(x for x in pages if 1 <= x < len(dev) // 1024 - 1):
+            for inpage in (0, 511, 1019, 1021):
+                patches.append({pg * 1024 + inpage: 1 << r2.below(8)})
+    types = ",".join(t for _, t in proto)
+    prelude = ["BASE c " + dev.hex()]
+    base = core.run_cases(impl, ["CONT @c %s %s %s 3" % (off, cnt, types)], prelude=prelude)[0].split(",")
+    res = core.run_cases(impl, ["CONT %s %s %s %s 3" % (dev_tok("c", pt), off, cnt, types) for pt in patches], prelude=prelude)
+    rep.count(len(patches))
+    n_after = 0
+    for pt, line in zip(patches, res):
+        rep.distinct(("cont", tuple(sorted(pt.items()))))
+        toks = line.split(",")
+        k, bad, failed = 0, None, False
+        for t in toks:
+            if t.startswith("o"):
+                if failed:
+                    n_after += 1
+                if k >= len(base) or base[k] != t:
+                    bad = "point %d yielded %s differs from the unaltered file's" % (k, "AFTER an error of the same iterator" if failed else "before any error")
+                    break
+                k += 1
+            elif t.startswith("e") or t.startswith("open:e") or t.startswith("new:e"):
+                failed = True
+            elif t == "P" or t.endswith(":P"):
+                bad = "panic while iterating an altered file"
+                break
+        if bad:
+            if rep.violation("c07-continued-iteration", "altered file (patch %s), one raw iterator continued after errors: %s (results %s)" %
+                             (sorted(pt.items()), bad, ",".join(x if not x.startswith("o") else "o" for x in toks[-8:])),
+                             dict(kind="continued", seed=sd, patch={str(k2): v for k2, v in pt.items()})):
+                break
+    rep.cov["continued_iteration"] = dict(altered_files=len(patches), points_yielded_after_an_error=n_after)
+
+
 def run(rep, tier, rng, replay=None):
     ok = core.proof_step(rep, "C07", thorough=(tier == "thorough"))
     rep.cov["trusted_base"] = core.TRUSTED_COMMON + [
@@ -92,6 +162,9 @@ def run(rep, tier, rng, replay=None):
         return
     impl = core.ensure_harness("debug")
     impl_hw = core.ensure_harness("debug", ("crc32c",))
+    if replay and replay.get("kind") == "continued":
+        continued_iteration(rep, tier, rng, impl, replay)
+        return
 
     # ---- (i) CRC of both backends against the model, on random and structured payloads
     payloads = [b"", b"\x00", b"\xff" * 1020, bytes(range(256)) * 3, b"123456789"]
@@ -309,6 +382,7 @@ def run(rep, tier, rng, replay=None):
                                   failing="correspondence reader model vs implementation on altered files (theorems C07_never_serves, C07_alteration)"),
                              no_input=True):
                 break
+    continued_iteration(rep, tier, rng, impl)
     rep.cov.update(alterations=len(alts), alteration_kinds=kinds, base_files=[dict(name=b["name"], pages=len(b["dev"]) // 1024, ops=b["ops"]) for b in bases],
                    single_bit_flips_exhaustive_on=[b["name"] for i, b in enumerate(bases) if tier == "thorough" or i < 2],
                    direct_failures=n_dir, correspondence_failures=n_corr, unsupported_skips_xml_altered_by_collision=skipped, model_sample=len(sample_idx),
@@ -319,4 +393,4 @@ def run(rep, tier, rng, replay=None):
                        "inside payload or checksum (CRC bit order) and up to 31 bits (MSB-first order), random overwrites, the Coq witnesses for straddling / MSB-32 bursts}; on each altered "
                        "file one reader runs XML, raw iteration of every point cloud, every blob, partial iterations, and everything again; plus validate_crc, raw_xml, open. "
                        "Oracle: every operation fails or equals the unaltered result (a partly consumed iteration must be a prefix); validate_crc must fail. "
-                       "Every 5th altered file is also run on the extracted model and on the crc32c build. distinct = distinct (file, byte patch)")
+                       "Every 5th altered file is also run on the extracted model and on the crc32c build. (iv) a file whose non-final data packet ends exactly on a page end, pages around every packet end altered: ONE raw iterator goes on after errors (up to 3), every point it yields must be the unaltered file's point at that position (direct oracle on the implementation only: the model does not describe an iterator after its first error). distinct = distinct (file, byte patch)")
